@@ -951,6 +951,21 @@ def has_undef(t):
     return any(a[0] in ('undef', 'poison') for a in atoms(t))
 
 
+def fp_casts(t, top=True, out=None, seen=None):
+    """floating-point precision changes inside a term: [(cast node, is_outermost, operand)]"""
+    if out is None:
+        out, seen = [], set()
+    if not isinstance(t, tuple) or id(t) in seen:
+        return out
+    seen.add(id(t))
+    if t[0] == 'cast' and t[1] in ('fptrunc', 'fpext'):
+        out.append((t, top, t[3]))
+    for x in t[1:]:
+        if isinstance(x, tuple):
+            fp_casts(x, False, out, seen)
+    return out
+
+
 def strip_casts(t, kinds=("zext", "sext", "trunc", "bitcast")):
     while isinstance(t, tuple) and t[0] == 'cast' and t[1] in kinds:
         t = t[3]
@@ -1190,7 +1205,7 @@ class Poly:
         return " + ".join(parts)
 
 
-def to_poly(t, ring, atomize=None, width=None):
+def to_poly(t, ring, atomize=None, width=None, memo=None):
     """Canonicalise a term as a polynomial.  ring='real': fadd/fsub/fmul and
     int<->fp / fp width conversions are ring homomorphisms ("up to rounding");
     ring='int': add/sub/mul/shl-by-constant modulo 2^width, zext/sext/trunc are
@@ -1198,7 +1213,8 @@ def to_poly(t, ring, atomize=None, width=None):
     operation becomes an opaque atom wrapping the (recursively canonicalised)
     term itself."""
     mod = (1 << width) if (ring == 'int' and width) else None
-    memo = {}
+    if memo is None:
+        memo = {}
 
     def rec(x):
         if x in memo:
